@@ -69,7 +69,8 @@ def run(chk: Check):
         sim, real, shape = gen_data(rng, e, n, d)
         weights = rng.choice([None, None, [rng.random() + 0.05 for _ in range(d)]])
         wnp = None if weights is None else np.array(weights)
-        which = rng.choice(["minkowski", "msm", "fourier", "gsl", "likelihood"]) if ci >= 5 else ["gsl", "gsl", "gsl", "fourier", "fourier"][ci]
+        which = rng.choice(["minkowski", "msm", "fourier", "gsl", "likelihood"]) if ci >= 10 else ["gsl", "gsl", "gsl", "fourier", "fourier", "minkowski", "minkowski", "minkowski", "minkowski", "minkowski"][ci]
+        forced_p = [float("inf"), 0.5, 25, 1.5, float("inf")][ci - 5] if 5 <= ci < 10 else None      # every run: the unusual orders
         # (the first three: long structured GSL-div cases; then two Fourier cases whose cut-off f*n_freq is an exact half-integer tie)
         chk.count("loss:" + which); chk.count("data:" + shape)
         case = {"case": {"loss": which, "E": e, "N": n, "D": d, "shape": shape, "weights": weights}}
@@ -77,13 +78,16 @@ def run(chk: Check):
             warnings.simplefilter("ignore")
             try:
                 if which == "minkowski":
-                    p = rng.randint(1, 4)
+                    # the order: small integers mostly; also fractional, large and infinite orders (scipy's minkowski accepts every p > 0)
+                    p = rng.choice([1, 2, 3, 4, 1, 2, 3, 4, 1.5, 0.5, 7, 25, float("inf"), float("inf")])
+                    p = forced_p if forced_p is not None else p
+                    chk.count("minkowski:p=" + ("inf" if p == float("inf") else "integer<=4" if p in (1, 2, 3, 4) else "other"))
                     ftags = [rng.randrange(3) for _ in range(d)] if rng.random() < 0.5 else None
                     fl = None if ftags is None else [filters_pool[t] for t in ftags]
                     got = float(MinkowskiLoss(p=p, coordinate_weights=wnp, coordinate_filters=fl).compute_loss(sim, real))
                     want = ref.minkowski(sim, real, p, weights, fl)
                     opts = {"p": p, "filters": ftags}; tol = 1e-9
-                    if n <= 60:
+                    if n <= 60 and p in (1, 2, 3, 4):
                         fs = [None] * d if fl is None else fl
                         cols = [np.array([fs[i](sim[j, :, i]) if fs[i] is not None else sim[j, :, i] for j in range(e)]) for i in range(d)]
                         model_lean.append(("MinkowskiLoss.compute_loss != BlackIt.Loss.minkowskiPowSum^(1/p) (binary64 instance)", got, [1.0 / d] * d if weights is None else list(weights), case,
